@@ -306,6 +306,41 @@ def run(ctx, scratch):
                                   'correct: an earlier call disturbed the matrix, or kept something of it across an in-place edit)' % (pos + 1), case=dict(m=m, steps=steps),
                                   expected=exp, observed=got, family='same_object_sequence', step=pos, dtype=m['dtype'])
                     break
+        # ---- the same caller-owned source arrays handed to several calls on one biadjacency matrix
+        for k in range(40 if quick else 400):
+            r_, c_ = rng.randint(2, 6), rng.randint(2, 6)
+            Eb = sorted({(rng.randrange(r_), rng.randrange(c_)) for _ in range(rng.randint(1, r_ * c_))})
+            sr = sorted(rng.sample(range(r_), rng.randint(1, min(2, r_)))) if k % 3 != 0 else None
+            sc = sorted(rng.sample(range(c_), rng.randint(1, min(2, c_)))) if (k % 3 != 1 or sr is None) else None
+            kinds = [rng.choice(['dist', 'sp']) for _ in range(3)]
+            m = mspec(r_, c_, Eb, rng=rng)
+            m['fmt'] = 'csr'
+            args = dict(m=m, source_row=sr, source_col=sc, kinds=kinds)
+            r = impl.call('c10', 'shared_sources', args, timeout=30)
+            ctx.traces += 1
+            ctx.count('shared_sources', ('shared', r_, c_, tuple(Eb), repr(sr), repr(sc), tuple(kinds)), True)
+            if 'ok' not in r:
+                ctx.violation('get_distances', 'calls with shared source arrays crashed / hung', case=args, observed=r, family='shared_sources')
+                continue
+            nb = r_ + c_
+            blockE = [(i, r_ + j) for (i, j) in Eb] + [(r_ + j, i) for (i, j) in Eb]
+            srcs = list(sr or []) + [r_ + j for j in (sc or [])]
+            dist = _bfs(nb, blockE, srcs)
+            exp_d = {'ok': [dist[:r_], dist[r_:]]}
+            exp_p = {'ok': sorted([i, j] for (i, j) in blockE if dist[i] >= 0 and dist[j] == dist[i] + 1)}
+            for pos, (kind, got) in enumerate(zip(kinds, r['ok']['steps'])):
+                exp = exp_d if kind == 'dist' else exp_p
+                got = {'ok': sorted(got['ok'])} if kind == 'sp' and 'ok' in got else got
+                if got != exp:
+                    ctx.violation('get_distances' if kind == 'dist' else 'get_shortest_path',
+                                  'call number %d with the same source arrays differs from the definition' % (pos + 1), case=args,
+                                  expected=exp, observed=got, family='shared_sources', step=pos)
+                    break
+            if r['ok']['source_row_after'] != sr or r['ok']['source_col_after'] != sc:
+                ctx.violation('get_distances', 'a source array of the caller was modified', case=args,
+                              expected=dict(source_row=sr, source_col=sc),
+                              observed=dict(source_row=r['ok']['source_row_after'], source_col=r['ok']['source_col_after']),
+                              family='shared_sources')
     ctx.rule = ('exhaustive digraphs n<=3 (loops) x source sets x transpose, sampled loop-free digraphs n=4, all/sampled '
                 'biadjacency matrices up to 3x3 with row/column/mixed sources, structured random graphs (13 families), '
                 'malformed stream; model evaluated by vm_compute inside Coq, implementation in a worker on the scratch '
